@@ -1,5 +1,6 @@
 import HpoModel.Drv.Core
 import HpoModel.Hypergeom
+import HpoModel.HypergeomFast
 /- Protocol handler for the hypergeometric enrichment (C06).
 
   enrich <slot> <g|o|r> <background ids | *> <sample ids>
@@ -17,8 +18,10 @@ def showFold (k n K N : Nat) : String :=
   | some v => showF64 v
   | none => "f64:nan"
 
+/-- the p-value is evaluated with the linear-time tail: `pvalueFast = pvalue`
+(`HpoProofs/HypergeomFast.lean`, `pvalueFast_eq`; C06 `C06_fast_tail_is_model`) -/
 def enrLine (N n : Nat) (e : Enr) : String :=
-  let p := pvalue N n e
+  let p := pvalueFast N n e
   String.intercalate " " ["E", toString e.id, toString e.count, showF64 (ratToFloat p.1 p.2),
     showFold e.count n e.K N]
 
